@@ -77,7 +77,7 @@ pub fn families() -> Vec<Box<dyn Family>> {
                 let (a, b) = gen::rand_pair(&mut rng, if cfg.tiny { 10 } else { 400 });
                 let (or, nr) = gen::rand_ranges(&mut rng, a.len(), b.len());
                 let alg = ALGS[rng.below(3)];
-                let carrier = 1u32 << rng.below(7);
+                let carrier = 1u32 << rng.below(8);
                 out.sample(|| format!("alg={} old={} range {:?} new={} range {:?}", alg_name(alg), fmt_seq(&a), or, fmt_seq(&b), nr));
                 sub_case(alg, &a, or.clone(), &b, nr.clone(), carrier, out);
                 if idx % 8 == 0 && a.len() <= 40 && b.len() <= 40 {
@@ -266,7 +266,7 @@ fn full_pair(a: &[u8], b: &[u8], out: &mut Local) {
 
 /// `carriers` is a bit mask: 1 slice(+shift-equivalence), 2 StrictLookup, 4
 /// StrictLookup near usize::MAX, 8 IdentifyDistinct, 16 constant-hash items,
-/// 32 one shared buffer, 64 lookups straddling 2^32.
+/// 32 one shared buffer, 64 lookups straddling 2^32, 128 Vec vs VecDeque.
 fn sub_case(
     alg: Algorithm,
     a: &[u32],
@@ -411,6 +411,31 @@ fn sub_case(
             }
         }
         out.count("lookups_around_2_pow_32_runs");
+    }
+
+    // (8) differently monomorphised containers: old is a &Vec<u32>, new a VecDeque<u32> that
+    // wraps around its ring buffer
+    if carriers & 128 != 0 {
+        let va: Vec<u32> = a.to_vec();
+        let mut vd: std::collections::VecDeque<u32> = std::collections::VecDeque::with_capacity(b.len() + 3);
+        // rotate the ring buffer so that the contents are not contiguous in memory
+        for _ in 0..2 {
+            vd.push_back(0);
+        }
+        for _ in 0..2 {
+            vd.pop_front();
+        }
+        vd.extend(b.iter().copied());
+        out.eval();
+        let r = traced(entry, alg, &va, or.clone(), &vd, nr.clone(), &eq, None, false);
+        if report_trace(out, "diff of a &Vec against a VecDeque", &ctx, &r) {
+            if let (Some(be), Ok(m)) = (&base_evs, &r) {
+                if *be != m.evs {
+                    out.violation("shift_equivalence", format!("{}: Vec / VecDeque containers give {} but slices give {}", ctx(), fmt_evs(&m.evs), fmt_evs(be)));
+                }
+            }
+        }
+        out.count("vec_vs_vecdeque_runs");
     }
 
     // (5) constant-hash items
